@@ -331,6 +331,7 @@ func TestDuplicates(t *testing.T) {
 func TestObjectHistory(t *testing.T) {
 	ev.Rapid(t, 600, 6000)
 	sizes := []int{1, 2, 3, 4, 5, 7, 8, 9, 16, 17, 31, 33, 37, 64, 100, 129}
+	bigSizes := []int{511, 512, 513, 700, 1023, 1024, 1025, 1100, 1537, 2049}
 	rapid.Check(t, func(rt *rapid.T) {
 		type held struct {
 			leaf, root string
@@ -345,15 +346,34 @@ func TestObjectHistory(t *testing.T) {
 		var helds []held
 		var log []string
 		built, shrunk, heldAcross, loaded, refused := false, false, false, false, false
+		big, twins, loadedOver := false, false, false
+		twin := -1
 		build := func(step int) {
 			n := gen.Pick(rt, sizes, "n")
 			if gen.Chance(rt, 30, "nuniform") {
 				n = gen.Uniform(rt, 1, 140, "nu")
 			}
+			if gen.Chance(rt, 15, "nbig") {
+				n = gen.Pick(rt, bigSizes, "nb")
+				big = true
+			}
 			if built && n < len(ls) {
 				shrunk = true
 			}
 			ls, hs = mkLeaves(n, uint64(1000+step))
+			twin = -1
+			if n >= 2 && gen.Chance(rt, 35, "twinleaf") {
+				// two different leaf hashes that agree in their first k characters
+				i := gen.Uniform(rt, 0, n-2, "twini")
+				twin = gen.Uniform(rt, i+1, n-1, "twinj")
+				k := gen.Pick(rt, []int{4, 8, 16, 32, 63}, "twink")
+				ls[twin] = ls[i][:k] + ls[twin][k:]
+				if ls[twin] == ls[i] {
+					ls[twin] = ls[i][:63] + map[bool]string{true: "0", false: "1"}[ls[i][63] != '0']
+				}
+				hs[twin] = leaf(ls[twin])
+				twins = true
+			}
 			mt.ComputeTree(hs)
 			built = true
 			root = mt.GetRoot()
@@ -383,6 +403,9 @@ func TestObjectHistory(t *testing.T) {
 				if gen.Chance(rt, 35, "edge") {
 					i = gen.Pick(rt, []int{0, len(ls) - 1, len(ls) / 2}, "ie")
 				}
+				if twin >= 0 && gen.Chance(rt, 40, "asktwin") {
+					i = twin
+				}
 				hd := held{leaf: ls[i], root: root}
 				if len(ls) > 1 {
 					hd.other = ls[(i+1+gen.Uniform(rt, 0, len(ls)-2, "o"))%len(ls)]
@@ -400,9 +423,28 @@ func TestObjectHistory(t *testing.T) {
 				if gen.Chance(rt, 40, "now") {
 					verify(hd, "at once")
 				}
-			case k < 85:
+			case k < 78:
 				if len(helds) > 0 {
 					verify(gen.Pick(rt, helds, "held"), "later")
+				}
+			case k < 88:
+				// another tree (built on its own object) is exported and loaded into THIS object, which has served paths before
+				n2 := gen.Pick(rt, sizes, "n2")
+				if len(ls) >= 500 || gen.Chance(rt, 25, "n2big") {
+					n2 = gen.Pick(rt, bigSizes, "n2b")
+					big = true
+				}
+				ls2, hs2 := mkLeaves(n2, uint64(5000+step))
+				src := &util.MerkleTree{}
+				src.ComputeTree(hs2)
+				if err := mt.SetTree(n2, append([]string(nil), src.GetTree()...)); err != nil {
+					rt.Fatalf("%v: SetTree of a %d-leaf export into a used object: %v", log, n2, err)
+				}
+				ls, hs, root, twin = ls2, hs2, src.GetRoot(), -1
+				log = append(log, fmt.Sprintf("load a %d-leaf tree into this object", n2))
+				loadedOver = true
+				if mt.GetRoot() != root || root != refRoot(ls) {
+					rt.Fatalf("%v: root after loading another tree into a used object is wrong", log)
 				}
 			case k < 90:
 				// a load that must be refused (the node list does not fit the leaf count) leaves the tree as it is
@@ -454,6 +496,15 @@ func TestObjectHistory(t *testing.T) {
 		}
 		if refused {
 			cls = append(cls, "refused-load-then-paths")
+		}
+		if big {
+			cls = append(cls, "tree-of-500+-leaves")
+		}
+		if twins {
+			cls = append(cls, "leaves-sharing-a-prefix")
+		}
+		if loadedOver {
+			cls = append(cls, "other-tree-loaded-into-used-object")
 		}
 		ev.Case(fmt.Sprint(log), nt, cls...)
 		if nt && ev.WantSample() {
